@@ -13,6 +13,7 @@ import (
 	"bytes"
 	"fmt"
 	"go/ast"
+	"go/constant"
 	"go/token"
 	"go/types"
 	"os/exec"
@@ -207,6 +208,10 @@ func (P *Prog) proveBounds(path []ast.Node, info *types.Info) (bool, string) {
 		if why, ok := P.sortLessProver(path, info, X, I); ok {
 			return true, why
 		}
+		// (c') Less/Swap method of a sort.Interface implementation over the receiver
+		if why, ok := P.sortMethodProver(path, info, X, I); ok {
+			return true, why
+		}
 		// (b) element of lo.Range(len(X)) handed to the closure by AsyncMapReduce / lo.Map
 		if why, ok := P.rangeParamProver(path, info, X, I); ok {
 			return true, why
@@ -222,6 +227,10 @@ func (P *Prog) proveBounds(path []ast.Node, info *types.Info) (bool, string) {
 		// (d") for i := range p { … q[i] … } where p, q are parameters and every caller
 		// passes a q made with len(p)
 		if why, ok := P.parallelParamProver(fc, path, info, X, I); ok {
+			return true, why
+		}
+		// (d"') X and I are parameters, and every caller passes them under a guard I < len(X)
+		if why, ok := P.callerGuardProver(path, info, X, I); ok {
 			return true, why
 		}
 		// (e) I < len(X) from guards, and I >= 0
@@ -413,6 +422,7 @@ func (P *Prog) isStringsIndexOf(fc *factCtx, id *ast.Ident, S ast.Expr) bool {
 	}
 	want := idExpr(fc.info, S)
 	n, okAll := 0, true
+	var defEnd token.Pos
 	ast.Inspect(fc.fn, func(nd ast.Node) bool {
 		if as, ok := nd.(*ast.AssignStmt); ok {
 			for i, l := range as.Lhs {
@@ -428,6 +438,7 @@ func (P *Prog) isStringsIndexOf(fc *factCtx, id *ast.Ident, S ast.Expr) bool {
 					continue
 				}
 				n++
+				defEnd = as.End()
 				if len(as.Lhs) != len(as.Rhs) {
 					okAll = false
 					continue
@@ -446,9 +457,22 @@ func (P *Prog) isStringsIndexOf(fc *factCtx, id *ast.Ident, S ast.Expr) bool {
 		}
 		return true
 	})
-	// the sliced string must not have been reassigned between (S is usually a parameter
-	// re-sliced by this very statement, which is after the Index call)
-	return n == 1 && okAll
+	if n != 1 || !okAll {
+		return false
+	}
+	// the sliced string must not have been reassigned between the Index call and the slice
+	// (S is usually re-sliced by the very statement that holds the slice expression: that
+	// assignment takes effect after the expression is evaluated, so the window ends where the
+	// statement begins; inside a loop the statement still counts, through assignedBetween's
+	// loop clause)
+	to := fc.use
+	for _, nd := range fc.path {
+		if st, isStmt := nd.(ast.Stmt); isStmt {
+			to = st.Pos()
+			break
+		}
+	}
+	return !fc.assignedBetween(objsIn(fc.info, S), defEnd, to, nil)
 }
 
 func (P *Prog) sortLessProver(path []ast.Node, info *types.Info, X, I ast.Expr) (string, bool) {
@@ -537,6 +561,10 @@ func (P *Prog) sortLessProver(path []ast.Node, info *types.Info, X, I ast.Expr) 
 			for _, nm := range f.Names {
 				if info.Defs[nm] == info.Uses[id] {
 					// the slice must not be reassigned inside the callback
+					lfc := &factCtx{info: info, path: path, fn: fl, use: path[0].Pos()}
+					if lfc.assignedBetween(objsIn(info, X), fl.Pos(), fl.End(), nil) {
+						return "", false
+					}
 					return "index is a parameter of the less callback of sort.Slice* over the same slice", true
 				}
 			}
@@ -546,8 +574,136 @@ func (P *Prog) sortLessProver(path []ast.Node, info *types.Info, X, I ast.Expr) 
 	return "", false
 }
 
+// sortMethodProver: recv[i] in the Less or Swap method of a named slice type whose Len method
+// returns len(recv): package sort calls these with 0 <= i, j < Len() only. The methods must
+// not be used by the module itself (called directly or taken as values), and the receiver
+// must not be reassigned in the method.
+func (P *Prog) sortMethodProver(path []ast.Node, info *types.Info, X, I ast.Expr) (string, bool) {
+	xid, ok1 := X.(*ast.Ident)
+	iid, ok2 := I.(*ast.Ident)
+	if !ok1 || !ok2 {
+		return "", false
+	}
+	var decl *ast.FuncDecl
+	for _, n := range path {
+		if _, isLit := n.(*ast.FuncLit); isLit {
+			return "", false
+		}
+		if d, ok := n.(*ast.FuncDecl); ok {
+			decl = d
+		}
+	}
+	if decl == nil || decl.Recv == nil || len(decl.Recv.List) != 1 || len(decl.Recv.List[0].Names) != 1 || decl.Body == nil {
+		return "", false
+	}
+	if decl.Name.Name != "Less" && decl.Name.Name != "Swap" {
+		return "", false
+	}
+	recv := info.Defs[decl.Recv.List[0].Names[0]]
+	if recv == nil || info.Uses[xid] != recv {
+		return "", false
+	}
+	named, ok := recv.Type().(*types.Named)
+	if !ok {
+		return "", false
+	}
+	if _, isSlice := named.Underlying().(*types.Slice); !isSlice {
+		return "", false
+	}
+	// signature (i, j int) and I is one of the two
+	sig, _ := info.Defs[decl.Name].Type().(*types.Signature)
+	if sig == nil || sig.Params().Len() != 2 {
+		return "", false
+	}
+	isParam := false
+	for k := 0; k < 2; k++ {
+		if types.Object(sig.Params().At(k)) == info.Uses[iid] {
+			isParam = true
+		}
+	}
+	if !isParam {
+		return "", false
+	}
+	// neither the receiver nor the index is assigned in the body
+	// (an element write `s[i] = …` — Swap — leaves the slice itself alone)
+	objs := map[types.Object]bool{recv: true, info.Uses[iid]: true}
+	reassigned := false
+	ast.Inspect(decl.Body, func(nd ast.Node) bool {
+		whole := func(e ast.Expr) {
+			if id, ok := e.(*ast.Ident); ok && objs[info.Uses[id]] {
+				reassigned = true
+			}
+		}
+		switch st := nd.(type) {
+		case *ast.AssignStmt:
+			for _, l := range st.Lhs {
+				whole(l)
+			}
+		case *ast.IncDecStmt:
+			whole(st.X)
+		case *ast.RangeStmt:
+			if st.Tok == token.ASSIGN {
+				whole(st.Key)
+				whole(st.Value)
+			}
+		case *ast.UnaryExpr:
+			if st.Op == token.AND {
+				whole(st.X)
+			}
+		}
+		return true
+	})
+	if reassigned {
+		return "", false
+	}
+	// the three methods exist, Len is `return len(recv)`, and the module never uses Less/Swap itself
+	methods := map[string]*types.Func{}
+	for k := 0; k < named.NumMethods(); k++ {
+		methods[named.Method(k).Name()] = named.Method(k)
+	}
+	if methods["Len"] == nil || methods["Less"] == nil || methods["Swap"] == nil {
+		return "", false
+	}
+	lenOK := false
+	for _, pkg := range P.Pkgs {
+		for _, file := range pkg.Syntax {
+			for _, d := range file.Decls {
+				fd, ok := d.(*ast.FuncDecl)
+				if !ok || pkg.TypesInfo.Defs[fd.Name] != types.Object(methods["Len"]) || fd.Body == nil || len(fd.Body.List) != 1 {
+					continue
+				}
+				ret, ok := fd.Body.List[0].(*ast.ReturnStmt)
+				if !ok || len(ret.Results) != 1 || fd.Recv == nil || len(fd.Recv.List) != 1 || len(fd.Recv.List[0].Names) != 1 {
+					continue
+				}
+				if arg, ok := isLenOf(pkg.TypesInfo, ret.Results[0]); ok {
+					if aid, ok := arg.(*ast.Ident); ok && pkg.TypesInfo.Uses[aid] == pkg.TypesInfo.Defs[fd.Recv.List[0].Names[0]] {
+						lenOK = true
+					}
+				}
+			}
+			ast.Inspect(file, func(nd ast.Node) bool {
+				if id, ok := nd.(*ast.Ident); ok {
+					if u := pkg.TypesInfo.Uses[id]; u != nil && (u == types.Object(methods["Less"]) || u == types.Object(methods["Swap"])) {
+						lenOK = false
+						methods["Len"] = nil
+					}
+				}
+				return true
+			})
+		}
+	}
+	if !lenOK || methods["Len"] == nil {
+		return "", false
+	}
+	return "index is a parameter of the " + decl.Name.Name + " method of a sort.Interface implementation whose Len is len of the receiver: package sort passes positions below Len() only, and the module does not call the method itself", true
+}
+
 // rangeParamProver: X[i] inside a closure whose first parameter i ranges over
 // lo.Range(len(X)) — as mapFunc of common.AsyncMapReduce or callback of lo.Map/lo.ForEach.
+// The closure is written in place or bound to a local (`work := func(i int) …`) every use of
+// which is such a callback argument; the length may be taken directly or through a local
+// defined once as `n := len(X)` with X not reassigned up to the call.
 func (P *Prog) rangeParamProver(path []ast.Node, info *types.Info, X, I ast.Expr) (string, bool) {
 	id, ok := I.(*ast.Ident)
 	if !ok {
@@ -561,33 +717,91 @@ func (P *Prog) rangeParamProver(path []ast.Node, info *types.Info, X, I ast.Expr
 		if i+1 >= len(path) {
 			return "", false
 		}
-		call, ok := path[i+1].(*ast.CallExpr)
-		if !ok {
-			return "", false
-		}
 		if fl.Type.Params == nil || len(fl.Type.Params.List) == 0 || len(fl.Type.Params.List[0].Names) == 0 {
 			return "", false
 		}
 		if info.Defs[fl.Type.Params.List[0].Names[0]] != info.Uses[id] {
 			return "", false
 		}
-		callee := qualifiedCallee(info, call)
-		var src ast.Expr
-		switch {
-		case callee == modPath+"/common.AsyncMapReduce" && len(call.Args) == 4 && call.Args[2] == ast.Expr(fl):
-			src = call.Args[0]
-		case (callee == "github.com/samber/lo.Map" || callee == "github.com/samber/lo.ForEach") && len(call.Args) == 2 && call.Args[1] == ast.Expr(fl):
-			src = call.Args[0]
+		// the call sites the closure is handed to, each with its own enclosing path
+		type site struct {
+			call *ast.CallExpr
+			path []ast.Node // innermost first, starting at the call
+			fun  ast.Expr   // the argument that stands for the closure
+		}
+		var sites []site
+		switch p := path[i+1].(type) {
+		case *ast.CallExpr:
+			sites = append(sites, site{p, path[i+1:], fl})
+		case *ast.AssignStmt:
+			if len(p.Lhs) != 1 || len(p.Rhs) != 1 || p.Rhs[0] != ast.Expr(fl) || p.Tok != token.DEFINE {
+				return "", false
+			}
+			lid, isId := p.Lhs[0].(*ast.Ident)
+			if !isId || info.Defs[lid] == nil {
+				return "", false
+			}
+			obj := info.Defs[lid]
+			encl := enclosingFuncNode(path[i+1:])
+			if encl == nil {
+				return "", false
+			}
+			good := true
+			var stack []ast.Node
+			ast.Inspect(encl, func(n2 ast.Node) bool {
+				if n2 == nil {
+					stack = stack[:len(stack)-1]
+					return true
+				}
+				stack = append(stack, n2)
+				id2, isId := n2.(*ast.Ident)
+				if !isId || info.Uses[id2] != obj {
+					return true
+				}
+				// every use of the variable is an argument of a call
+				if len(stack) < 2 {
+					good = false
+					return true
+				}
+				c2, isCall := stack[len(stack)-2].(*ast.CallExpr)
+				if !isCall || c2.Fun == ast.Expr(id2) {
+					good = false
+					return true
+				}
+				rev := make([]ast.Node, 0, len(stack)-1)
+				for k := len(stack) - 2; k >= 0; k-- {
+					rev = append(rev, stack[k])
+				}
+				sites = append(sites, site{c2, rev, id2})
+				return true
+			})
+			if !good || len(sites) == 0 {
+				return "", false
+			}
 		default:
 			return "", false
 		}
-		rc, ok := src.(*ast.CallExpr)
-		if !ok || qualifiedCallee(info, rc) != "github.com/samber/lo.Range" || len(rc.Args) != 1 {
-			return "", false
-		}
-		arg, ok := isLenOf(info, rc.Args[0])
-		if !ok || idExpr(info, arg) != idExpr(info, X) {
-			return "", false
+		for _, s := range sites {
+			call := s.call
+			callee := qualifiedCallee(info, call)
+			var src ast.Expr
+			switch {
+			case callee == modPath+"/common.AsyncMapReduce" && len(call.Args) == 4 && call.Args[2] == s.fun:
+				src = call.Args[0]
+			case (callee == "github.com/samber/lo.Map" || callee == "github.com/samber/lo.ForEach") && len(call.Args) == 2 && call.Args[1] == s.fun:
+				src = call.Args[0]
+			default:
+				return "", false
+			}
+			rc, ok := src.(*ast.CallExpr)
+			if !ok || qualifiedCallee(info, rc) != "github.com/samber/lo.Range" || len(rc.Args) != 1 {
+				return "", false
+			}
+			cfc := &factCtx{info: info, path: s.path, fn: enclosingFuncNode(s.path), use: call.Pos()}
+			arg, ok := cfc.lenArg(rc.Args[0])
+			if !ok || idExpr(info, arg) != idExpr(info, X) {
+				return "", false
+			}
 		}
 		// the indexed expression must not be reassigned inside the closure
 		fc := &factCtx{info: info, path: path, fn: fl, use: path[0].Pos()}
@@ -847,6 +1061,127 @@ func (P *Prog) parallelParamProver(fc *factCtx, path []ast.Node, info *types.Inf
 	return fmt.Sprintf("index is the key of `range %s`; %s and %s are parameters never reassigned here, and at each of the %d call site(s) of %s the argument for %s is make(…, len(<argument for %s>))", yid.Name, xid.Name, yid.Name, sites, decl.Name.Name, xid.Name, yid.Name), true
 }
 
+// callerGuardProver: X[I] where X and I are parameters of the enclosing declared function,
+// neither is reassigned (nor has its address taken) in it, the function is only ever called
+// directly, and at every call site in the module the guard facts give
+// 0 <= <argument for I> < len(<argument for X>).
+func (P *Prog) callerGuardProver(path []ast.Node, info *types.Info, X, I ast.Expr) (string, bool) {
+	xid, ok1 := X.(*ast.Ident)
+	iid, ok2 := I.(*ast.Ident)
+	if !ok1 || !ok2 {
+		return "", false
+	}
+	var decl *ast.FuncDecl
+	for _, n := range path {
+		if _, isLit := n.(*ast.FuncLit); isLit {
+			return "", false
+		}
+		if d, ok := n.(*ast.FuncDecl); ok {
+			decl = d
+		}
+	}
+	if decl == nil || decl.Body == nil || decl.Type.Params == nil {
+		return "", false
+	}
+	paramIndex := func(id *ast.Ident) int {
+		k := 0
+		for _, f := range decl.Type.Params.List {
+			for _, nm := range f.Names {
+				if info.Defs[nm] == info.Uses[id] && info.Uses[id] != nil {
+					return k
+				}
+				k++
+			}
+		}
+		return -1
+	}
+	xi, ii := paramIndex(xid), paramIndex(iid)
+	if xi < 0 || ii < 0 {
+		return "", false
+	}
+	reassigned := false
+	touches := func(e ast.Expr) bool {
+		lid, ok := e.(*ast.Ident)
+		return ok && (info.Uses[lid] == info.Uses[xid] || info.Uses[lid] == info.Uses[iid])
+	}
+	ast.Inspect(decl.Body, func(nd ast.Node) bool {
+		switch s := nd.(type) {
+		case *ast.AssignStmt:
+			for _, l := range s.Lhs {
+				if touches(l) {
+					reassigned = true
+				}
+			}
+		case *ast.IncDecStmt:
+			if touches(s.X) {
+				reassigned = true
+			}
+		case *ast.RangeStmt:
+			if s.Tok == token.ASSIGN && ((s.Key != nil && touches(s.Key)) || (s.Value != nil && touches(s.Value))) {
+				reassigned = true
+			}
+		case *ast.UnaryExpr:
+			if s.Op == token.AND && touches(s.X) {
+				reassigned = true
+			}
+		}
+		return true
+	})
+	fobj := info.Defs[decl.Name]
+	if reassigned || fobj == nil {
+		return "", false
+	}
+	sites, okAll := 0, true
+	for _, pkg := range P.Pkgs {
+		for _, file := range pkg.Syntax {
+			var stack []ast.Node
+			ast.Inspect(file, func(nd ast.Node) bool {
+				if nd == nil {
+					stack = stack[:len(stack)-1]
+					return true
+				}
+				stack = append(stack, nd)
+				id, ok := nd.(*ast.Ident)
+				if !ok || pkg.TypesInfo.Uses[id] != fobj {
+					return true
+				}
+				// the use must be the function position of a call
+				var call *ast.CallExpr
+				ci := -1
+				for k := len(stack) - 2; k >= 0 && k >= len(stack)-3; k-- {
+					if c, ok := stack[k].(*ast.CallExpr); ok {
+						if ast.Node(c.Fun) == stack[k+1] {
+							call, ci = c, k
+						}
+						break
+					}
+					if _, isSel := stack[k].(*ast.SelectorExpr); !isSel {
+						break
+					}
+				}
+				if call == nil || len(call.Args) <= xi || len(call.Args) <= ii || call.Ellipsis.IsValid() {
+					okAll = false
+					return true
+				}
+				sites++
+				rev := make([]ast.Node, 0, ci+1)
+				for k := ci; k >= 0; k-- {
+					rev = append(rev, stack[k])
+				}
+				cfc := newFactCtx(pkg.TypesInfo, rev)
+				if !cfc.idxBelowLen(call.Args[ii], call.Args[xi]) || !cfc.nonNeg(call.Args[ii], 0) {
+					okAll = false
+				}
+				return true
+			})
+		}
+	}
+	if !okAll || sites == 0 {
+		return "", false
+	}
+	return fmt.Sprintf("%s and %s are parameters never reassigned here, %s is only called directly, and at each of its %d call site(s) a dominating guard gives 0 <= <argument for %s> < len(<argument for %s>)", xid.Name, iid.Name, decl.Name.Name, sites, iid.Name, xid.Name), true
+}
+
 // madeWithLenOf: at the call, argument b is a local assigned exactly once, by
 // `b := make(T, len(a))` in the same function, with a not reassigned between that and the call.
 func madeWithLenOf(info *types.Info, stack []ast.Node, call *ast.CallExpr, b, a ast.Expr) bool {
@@ -962,6 +1297,81 @@ func (r *Run) scopeFuncs(sc panicScope) map[*ssa.Function]bool {
 	return set
 }
 
+// widenByInterfaceEscape: a value of a module type that a function in scope converts to an
+// interface and hands to a callee without body in the module (sort.Stable, json.Marshal,
+// fmt.Errorf, an encoder) has its methods called from there: the methods of the interface it
+// is converted to, or — for the empty interface — the methods the standard library looks for
+// by name. Those methods, and what they reach, run in this scope although no call edge of the
+// module leads to them.
+func (r *Run) widenByInterfaceEscape(set map[*ssa.Function]bool) {
+	protocol := map[string]bool{"Error": true, "String": true, "GoString": true, "Format": true,
+		"MarshalJSON": true, "MarshalText": true, "UnmarshalJSON": true, "UnmarshalText": true}
+	var work []*ssa.Function
+	for fn := range set {
+		work = append(work, fn)
+	}
+	sort.Slice(work, func(i, j int) bool { return fnName(work[i]) < fnName(work[j]) })
+	for len(work) > 0 {
+		fn := work[len(work)-1]
+		work = work[:len(work)-1]
+		for _, ins := range allInstrs(fn) {
+			mi, ok := ins.(*ssa.MakeInterface)
+			if !ok || mi.Referrers() == nil {
+				continue
+			}
+			escapes := false
+			for _, ref := range *mi.Referrers() {
+				ci, ok := ref.(ssa.CallInstruction)
+				if !ok {
+					continue
+				}
+				c := ci.Common()
+				if c.IsInvoke() {
+					if len(r.P.CG.implementers(c)) == 0 {
+						escapes = true
+					}
+				} else if sc := c.StaticCallee(); sc != nil {
+					if d := r.P.declared(sc); !inModule(d) || d.Blocks == nil {
+						escapes = true
+					}
+				}
+			}
+			if !escapes {
+				continue
+			}
+			iface, _ := mi.Type().Underlying().(*types.Interface)
+			ms := r.P.SSA.MethodSets.MethodSet(mi.X.Type())
+			for i := 0; i < ms.Len(); i++ {
+				sel := ms.At(i)
+				name := sel.Obj().Name()
+				if iface != nil && iface.NumMethods() > 0 {
+					found := false
+					for k := 0; k < iface.NumMethods(); k++ {
+						if iface.Method(k).Name() == name {
+							found = true
+						}
+					}
+					if !found {
+						continue
+					}
+				} else if !protocol[name] {
+					continue
+				}
+				m := r.P.declared(r.P.SSA.MethodValue(sel))
+				if m == nil || !inModule(m) || m.Blocks == nil || set[m] {
+					continue
+				}
+				for g := range r.P.CG.Reachable([]*ssa.Function{m}, nil) {
+					if !set[g] {
+						set[g] = true
+						work = append(work, g)
+					}
+				}
+			}
+		}
+	}
+}
+
 // goroutineContext tells whether fn can run on a goroutine that has no recover.
 func (r *Run) ctxNote(fn *ssa.Function) string {
 	// functions reachable from a go statement's callee without a deferred recover in that callee
@@ -987,7 +1397,9 @@ func (r *Run) ctxNote(fn *ssa.Function) string {
 func rulePanic(sc panicScope) ruleFn {
 	return func(r *Run) {
 		set := r.scopeFuncs(sc)
-		r.Notes = append(r.Notes, fmt.Sprintf("R7 scope %q: %d functions", sc.label, len(set)))
+		nCG := len(set)
+		r.widenByInterfaceEscape(set)
+		r.Notes = append(r.Notes, fmt.Sprintf("R7 scope %q: %d functions (%d of them methods reached through an interface handed to code outside the module)", sc.label, len(set), len(set)-nCG))
 		bySyntax := r.P.fnBySyntax()
 
 		// ---- P1 ----
@@ -1019,6 +1431,12 @@ func rulePanic(sc panicScope) ruleFn {
 				r.OK("R7.P1", name, construct, site, why)
 				continue
 			} else if why2, ok2 := r.chunkSliceProver(fn, path[0].(ast.Expr)); ok2 {
+				r.OK("R7.P1", name, construct, site, why2)
+				continue
+			} else if why2, ok2 := r.positionalReducerProver(fn, path[0].(ast.Expr)); ok2 {
+				r.OK("R7.P1", name, construct, site, why2)
+				continue
+			} else if why2, ok2 := r.searchIndexProver(fn, path[0].(ast.Expr)); ok2 {
 				r.OK("R7.P1", name, construct, site, why2)
 				continue
 			} else if reason, tabled := useTable(r, boundsTable, name+"/"+construct); tabled {
@@ -1059,10 +1477,44 @@ func rulePanic(sc panicScope) ruleFn {
 					}
 					nP2++
 					construct := ".(" + shortType(x.AssertedType) + ") on " + shortType(x.X.Type())
-					if reason, ok := useTable(r, assertTable, name+"/"+construct); ok {
+					if why, ok := r.searchedElementAssert(x); ok {
+						r.OK("R7.P2", name, construct, r.P.pos(x.Pos()), why)
+					} else if reason, ok := useTable(r, assertTable, name+"/"+construct); ok {
 						r.Tabled("R7.P2", name, construct, r.P.pos(x.Pos()), "assert", reason)
 					} else {
 						r.Bad("R7.P2", name, construct, r.P.pos(x.Pos()), "single-result type assertion panics when the dynamic type differs; "+r.ctxNote(fn))
+					}
+				case *ssa.Call, *ssa.Defer, *ssa.Go:
+					// P4 (exit): a call that ends the process is an explicit panic that nothing
+					// can recover — log.Fatal*, os.Exit, log.Panic*, runtime.Goexit (the latter
+					// ends the goroutine the reply is owed by)
+					cn := calleeName(x.(ssa.CallInstruction).Common())
+					if what, ends := processEnding(cn); ends {
+						construct := "call " + strings.TrimPrefix(cn, "invoke:")
+						if reason, ok := useTable(r, panicTable, name+"/"+construct); ok {
+							r.Tabled("R7.P4", name, construct, r.P.pos(ins.Pos()), "panic", reason)
+						} else {
+							r.Bad("R7.P4", name, construct, r.P.pos(ins.Pos()), what+" is reachable in this scope: a failure handled this way takes the whole gateway (every other client's request and subscription) down with it; "+r.ctxNote(fn))
+						}
+					}
+				case *ssa.Lookup, *ssa.MapUpdate:
+					// P7 (hash): a map keyed by an interface type hashes the dynamic value of the
+					// key — a JSON object or list as key panics with `hash of unhashable type`,
+					// the same hazard as == on two interfaces
+					var m, key ssa.Value
+					if lk, isLk := x.(*ssa.Lookup); isLk {
+						m, key = lk.X, lk.Index
+					} else {
+						mu := x.(*ssa.MapUpdate)
+						m, key = mu.Map, mu.Key
+					}
+					if why, risky := ifaceKeyRisk(m, key, ins.Block()); risky {
+						construct := "key " + shortType(key.Type()) + " of " + shortType(m.Type())
+						if reason, ok := useTable(r, cmpTable, name+"/"+construct); ok {
+							r.Tabled("R7.P7", name, construct, r.P.pos(ins.Pos()), "cmp", reason)
+						} else {
+							r.Bad("R7.P7", name, construct, r.P.pos(ins.Pos()), "a map with an interface-typed key is read or written with a key whose dynamic type is not known to be hashable ("+why+"): if the key holds a map or a slice (a JSON object or list) Go panics with `hash of unhashable type`; "+r.ctxNote(fn))
+						}
 					}
 				case *ssa.Panic:
 					if c, ok := unwrap(x.X).(*ssa.Const); ok && c.Value != nil && strings.HasPrefix(c.Value.ExactString(), `"blocking select`) {
@@ -1100,7 +1552,9 @@ func rulePanic(sc panicScope) ruleFn {
 					}
 					nP6++
 					construct := "divide-by " + describeVal(x.Y)
-					if reason, ok := useTable(r, divTable, name+"/"+construct); ok {
+					if why, ok := r.divisorFieldPositive(x.Y); ok {
+						r.OK("R7.P6", name, construct, r.P.pos(x.Pos()), why)
+					} else if reason, ok := useTable(r, divTable, name+"/"+construct); ok {
 						r.Tabled("R7.P6", name, construct, r.P.pos(x.Pos()), "div", reason)
 					} else {
 						r.Bad("R7.P6", name, construct, r.P.pos(x.Pos()), "integer division by a value that is not shown to be non-zero; "+r.ctxNote(fn))
@@ -1115,6 +1569,7 @@ func rulePanic(sc panicScope) ruleFn {
 			r.nilMapWrites(fn)
 		}
 		r.silent = false
+		r.chainRefLists(set)
 		_ = nP2
 		_ = nP4
 		_ = nP6
@@ -1122,6 +1577,119 @@ func rulePanic(sc panicScope) ruleFn {
 			r.AtLeast("R7.P3", "nil-able lookups dereferenced", nP3, 8)
 		}
 	}
+}
+
+// divisorFieldPositive: the divisor is read from a struct field of the module, and everything
+// the module ever stores into that field is a positive constant — directly, or through a
+// parameter of a function that is only called directly and is given a positive constant at
+// every call site inside the module; every place that allocates the struct sets the field.
+// (Callers outside the module are the precondition of the exported constructor.)
+func (r *Run) divisorFieldPositive(v ssa.Value) (string, bool) {
+	ld, ok := v.(*ssa.UnOp)
+	if !ok || ld.Op != token.MUL {
+		return "", false
+	}
+	fa, ok := ld.X.(*ssa.FieldAddr)
+	if !ok {
+		return "", false
+	}
+	f := fieldOf(fa)
+	if f == nil || f.Pkg() == nil || !strings.HasPrefix(f.Pkg().Path(), modPath) {
+		return "", false
+	}
+	nSites, nStores := 0, 0
+	var positive func(v ssa.Value, depth int) bool
+	positive = func(v ssa.Value, depth int) bool {
+		v = viaCell(unwrap(v))
+		switch x := v.(type) {
+		case *ssa.Const:
+			if x.Value == nil {
+				return false
+			}
+			n, exact := constant.Int64Val(constant.ToInt(x.Value))
+			return exact && n > 0
+		case *ssa.Parameter:
+			g := x.Parent()
+			if depth > 3 || g == nil || g.Parent() != nil {
+				return false
+			}
+			k := -1
+			for i, p := range g.Params {
+				if p == x {
+					k = i
+				}
+			}
+			sites := 0
+			for _, e := range r.P.CG.In[g] {
+				if e.Kind != "static" || k < 0 || k >= len(e.Site.Common().Args) {
+					return false
+				}
+				if !positive(e.Site.Common().Args[k], depth+1) {
+					return false
+				}
+				sites++
+			}
+			// the function must not travel as a value (it could then be called with anything)
+			for _, h := range r.P.Funcs {
+				for _, ins := range allInstrs(h) {
+					for _, op := range operandsOf(ins) {
+						if fv, isFn := op.(*ssa.Function); isFn && r.P.declared(fv) == g {
+							if ci, isCall := ins.(ssa.CallInstruction); !isCall || ci.Common().Value != op {
+								return false
+							}
+						}
+					}
+				}
+			}
+			nSites += sites
+			return sites > 0
+		}
+		return false
+	}
+	for _, h := range r.P.Funcs {
+		for _, ins := range allInstrs(h) {
+			switch x := ins.(type) {
+			case *ssa.Store:
+				if fb, ok := x.Addr.(*ssa.FieldAddr); ok && fieldOf(fb) == f {
+					nStores++
+					if !positive(x.Val, 0) {
+						return "", false
+					}
+				}
+			case *ssa.Alloc:
+				st, ok := derefType(x.Type()).Underlying().(*types.Struct)
+				if !ok {
+					continue
+				}
+				owns := false
+				for i := 0; i < st.NumFields(); i++ {
+					if st.Field(i) == f {
+						owns = true
+					}
+				}
+				if !owns {
+					continue
+				}
+				set := false
+				for _, ref := range *x.Referrers() {
+					if fb, ok := ref.(*ssa.FieldAddr); ok && fieldOf(fb) == f && fb.Referrers() != nil {
+						for _, r2 := range *fb.Referrers() {
+							if st2, ok := r2.(*ssa.Store); ok && st2.Addr == ssa.Value(fb) {
+								set = true
+							}
+						}
+					}
+				}
+				if !set {
+					return "", false // a value of the struct with the field left zero
+				}
+			}
+		}
+	}
+	if nStores == 0 {
+		return "", false
+	}
+	return fmt.Sprintf("the divisor is the field %s: each of the %d store(s) into it writes a positive constant, handed in at %d call site(s) inside the module, and every allocation of the struct sets it (callers outside the module: precondition of the exported constructor)", f.Name(), nStores, nSites), true
 }
 
 func describeVal(v ssa.Value) string {
@@ -1153,11 +1721,36 @@ func (r *Run) maybeNilSource(v ssa.Value) (kind, desc string, ok bool) {
 		case *types.Pointer, *types.Interface:
 			return "P3", "map lookup " + describeMap(x.X) + "[…] without comma-ok", true
 		}
+	case *ssa.Extract:
+		// `v, ok := m[k]` / `v, _ := m[k]`: v is the zero value when the key is absent — the
+		// same nil as the single-result form unless the use is on the ok side (nonNilAt)
+		lk, isLk := x.Tuple.(*ssa.Lookup)
+		if !isLk || !lk.CommaOk || x.Index != 0 {
+			return
+		}
+		if _, isMap := lk.X.Type().Underlying().(*types.Map); !isMap {
+			return
+		}
+		switch x.Type().Underlying().(type) {
+		case *types.Pointer, *types.Interface:
+			return "P3", "map lookup " + describeMap(lk.X) + "[…] with comma-ok", true
+		}
 	case *ssa.Call:
 		if sc := x.Call.StaticCallee(); sc != nil {
 			n := extName(sc)
 			if strings.HasPrefix(n, "(github.com/vektah/gqlparser/v2/ast.") && strings.HasSuffix(n, ").ForName") {
 				return "P3", "result of " + strings.TrimPrefix(n, "(github.com/vektah/gqlparser/v2/") + " (nil when absent)", true
+			}
+			// a module function with a single pointer result that returns nil on some path
+			// (a search that found nothing): DESIGN §R7 P3 "return nil summary"
+			if d := r.P.declared(sc); d != nil && inModule(d) && d.Blocks != nil && d.Signature.Results().Len() == 1 {
+				if _, isPtr := d.Signature.Results().At(0).Type().Underlying().(*types.Pointer); isPtr {
+					for _, ret := range returnsOf(d) {
+						if vals := retVals(ret); len(vals) == 1 && isNilConst(unwrap(vals[0])) {
+							return "P3", "result of " + fnName(d) + " (returns nil on some path)", true
+						}
+					}
+				}
 			}
 		}
 	case *ssa.UnOp:
@@ -1171,6 +1764,10 @@ func (r *Run) maybeNilSource(v ssa.Value) (kind, desc string, ok bool) {
 					if al, isAl := ld.X.(*ssa.Alloc); isAl && jsonDecodedInto(al) {
 						return "P5", "element of a JSON-decoded " + shortType(ld.Type()), true
 					}
+				}
+				// the list arrives as a parameter and some caller passes a JSON-decoded list
+				if prm, isPrm := ia.X.(*ssa.Parameter); isPrm && r.jsonDecodedList(prm, 0) {
+					return "P5", "element of a JSON-decoded " + shortType(prm.Type()) + " (decoded by a caller)", true
 				}
 			}
 		}
@@ -1319,10 +1916,26 @@ func (r *Run) nonNilAt(v ssa.Value, at ssa.Instruction) (bool, string) {
 			continue
 		}
 		if len(side.Preds) == 1 && (side == at.Block() || side.Dominates(at.Block())) {
-			if tested != v && writeBetween(tested, side, at) {
+			if tested != v && r.writeBetween(tested, side, at) {
 				continue
 			}
 			return true, "dominated by a nil test of the same value at " + r.P.pos(iff.Cond.Pos())
+		}
+	}
+	// value of a comma-ok lookup: the use is on the side where ok holds
+	if ex, isEx := v.(*ssa.Extract); isEx {
+		if lk, isLk := ex.Tuple.(*ssa.Lookup); isLk && lk.CommaOk && lk.Referrers() != nil {
+			for _, ref := range *lk.Referrers() {
+				okv, isOk := ref.(*ssa.Extract)
+				if !isOk || okv.Index != 1 {
+					continue
+				}
+				for _, side := range truthSides(okv) {
+					if len(side.Preds) == 1 && (side == at.Block() || side.Dominates(at.Block())) {
+						return true, "on the ok side of the comma-ok lookup at " + r.P.pos(lk.Pos())
+					}
+				}
+			}
 		}
 	}
 	// init-if-nil idiom for map lookups: if m[k] == nil { m[k] = new }; use m[k]
@@ -1334,10 +1947,113 @@ func (r *Run) nonNilAt(v ssa.Value, at ssa.Instruction) (bool, string) {
 	return false, ""
 }
 
+var fieldWriterMemo = map[*Prog]map[*types.Var]map[*ssa.Function]bool{}
+var reachMemo = map[*Prog]map[*ssa.Function]map[*ssa.Function]bool{}
+
+// callMayWriteField: some module function the call at site can reach stores into field f.
+func (r *Run) callMayWriteField(caller *ssa.Function, site ssa.CallInstruction, f *types.Var) bool {
+	if fieldWriterMemo[r.P] == nil {
+		fieldWriterMemo[r.P] = map[*types.Var]map[*ssa.Function]bool{}
+		reachMemo[r.P] = map[*ssa.Function]map[*ssa.Function]bool{}
+	}
+	writers, ok := fieldWriterMemo[r.P][f]
+	if !ok {
+		writers = map[*ssa.Function]bool{}
+		for _, g := range r.P.Funcs {
+			for _, ins := range allInstrs(g) {
+				if st, ok := ins.(*ssa.Store); ok {
+					if fb, ok := st.Addr.(*ssa.FieldAddr); ok && fieldOf(fb) == f {
+						writers[g] = true
+					}
+				}
+			}
+		}
+		fieldWriterMemo[r.P][f] = writers
+	}
+	if len(writers) == 0 {
+		return false
+	}
+	for _, e := range r.P.CG.Out[caller] {
+		if e.Site != site {
+			continue
+		}
+		reach, ok := reachMemo[r.P][e.Callee]
+		if !ok {
+			reach = r.P.CG.ReachableAll([]*ssa.Function{e.Callee})
+			reachMemo[r.P][e.Callee] = reach
+		}
+		for g := range writers {
+			if reach[g] {
+				return true
+			}
+		}
+	}
+	return false
+}
+
+// nonNilOnEdge: v is known non-nil when control goes from pred to succ — at the end of pred
+// already, or because that edge is the non-nil / ok branch of the test pred ends with.
+func (r *Run) nonNilOnEdge(v ssa.Value, pred, succ *ssa.BasicBlock) bool {
+	if len(pred.Instrs) == 0 {
+		return false
+	}
+	last := pred.Instrs[len(pred.Instrs)-1]
+	if ok, _ := r.nonNilAt(v, last); ok {
+		return true
+	}
+	iff, ok := last.(*ssa.If)
+	if !ok || len(pred.Succs) != 2 || pred.Succs[0] == pred.Succs[1] {
+		return false
+	}
+	if side := nilTestSide(iff, func(x ssa.Value) bool { return x == v }); side != nil {
+		return side == succ
+	}
+	if ex, isEx := v.(*ssa.Extract); isEx {
+		if lk, isLk := ex.Tuple.(*ssa.Lookup); isLk && lk.CommaOk {
+			cond := iff.Cond
+			truth := 0
+			if not, isNot := cond.(*ssa.UnOp); isNot && not.Op == token.NOT {
+				cond, truth = not.X, 1
+			}
+			if okv, isOk := cond.(*ssa.Extract); isOk && okv.Tuple == ssa.Value(lk) && okv.Index == 1 {
+				return pred.Succs[truth] == succ
+			}
+		}
+	}
+	return false
+}
+
+// truthSides: the blocks entered only when the boolean b is true — the true successor of
+// `if b`, the false successor of `if !b`; short-circuit conditions (`ok && …`) have already
+// been split into such tests by go/ssa.
+func truthSides(b ssa.Value) []*ssa.BasicBlock {
+	var out []*ssa.BasicBlock
+	if b.Referrers() == nil {
+		return nil
+	}
+	for _, ref := range *b.Referrers() {
+		switch x := ref.(type) {
+		case *ssa.If:
+			if x.Cond == b && len(x.Block().Succs) == 2 && x.Block().Succs[0] != x.Block().Succs[1] {
+				out = append(out, x.Block().Succs[0])
+			}
+		case *ssa.UnOp:
+			if x.Op == token.NOT && x.Referrers() != nil {
+				for _, r2 := range *x.Referrers() {
+					if iff, ok := r2.(*ssa.If); ok && iff.Cond == ssa.Value(x) && len(iff.Block().Succs) == 2 && iff.Block().Succs[0] != iff.Block().Succs[1] {
+						out = append(out, iff.Block().Succs[1])
+					}
+				}
+			}
+		}
+	}
+	return out
+}
+
 // writeBetween: for a re-read (second lookup of the same map/key, second load of the same
 // field or cell), is there a write to that map/field/cell on a path from the tested side to
 // the use?
-func writeBetween(tested ssa.Value, side *ssa.BasicBlock, at ssa.Instruction) bool {
+func (r *Run) writeBetween(tested ssa.Value, side *ssa.BasicBlock, at ssa.Instruction) bool {
 	fn := at.Parent()
 	reachFromSide := blockReach(side)
 	reachFromSide[side] = true
@@ -1362,22 +2078,63 @@ func writeBetween(tested ssa.Value, side *ssa.BasicBlock, at ssa.Instruction) bo
 				}
 				return st.Addr == t.X
 			}
+			// a call in between whose callee (or anything it reaches) stores into the same
+			// field: `if req.Name != nil { normalise(req); use(*req.Name) }`
+			if ci, ok := ins.(ssa.CallInstruction); ok {
+				if fa, ok := t.X.(*ssa.FieldAddr); ok && fieldOf(fa) != nil {
+					return r.callMayWriteField(fn, ci, fieldOf(fa))
+				}
+			}
 		}
 		return false
 	}
+	// a write counts when it can happen after the test and before the use: it is reachable
+	// from the tested side and the use is reachable from it without re-evaluating the tested
+	// value (inside a loop a write that comes after the use reaches it again only through the
+	// next iteration, which — when the tested value is loaded in the loop — tests anew)
+	var tb *ssa.BasicBlock
+	tIdx := -1
+	if ti, ok := tested.(ssa.Instruction); ok && ti.Block() != nil {
+		tb, tIdx = ti.Block(), instrIdx(ti)
+	}
+	reachAvoiding := func(from *ssa.BasicBlock) bool {
+		seen := map[*ssa.BasicBlock]bool{}
+		work := append([]*ssa.BasicBlock{}, from.Succs...)
+		for len(work) > 0 {
+			x := work[len(work)-1]
+			work = work[:len(work)-1]
+			if seen[x] || x == tb {
+				continue
+			}
+			seen[x] = true
+			if x == at.Block() {
+				return true
+			}
+			work = append(work, x.Succs...)
+		}
+		return false
+	}
+	atIdx := instrIdx(at)
 	for _, b := range fn.Blocks {
 		if !reachFromSide[b] {
 			continue
 		}
-		reachesUse := b == at.Block() || blockReach(b)[at.Block()]
-		if !reachesUse {
-			continue
-		}
+		var later *bool
 		for i, ins := range b.Instrs {
-			if b == at.Block() && i >= instrIdx(at) && !blockInCycle(b) {
-				break
+			if ins == at || !isWrite(ins) {
+				continue
 			}
-			if isWrite(ins) {
+			if b == tb && i < tIdx {
+				continue // before the tested value is read in this block: the test sees it
+			}
+			if b == at.Block() && i < atIdx {
+				return true
+			}
+			if later == nil {
+				v := reachAvoiding(b)
+				later = &v
+			}
+			if *later {
 				return true
 			}
 		}
@@ -1567,6 +2324,23 @@ func (r *Run) nilChecks(fn *ssa.Function) (nP3, nP5 int) {
 				for _, ref := range *v.Referrers() {
 					if phi, isPhi := ref.(*ssa.Phi); isPhi && derefOf(u) == ssa.Value(phi) {
 						ok, why = r.nonNilAt(phi, u)
+						// or the value enters the phi only on edges on which it is non-nil
+						// (`p, ok := m[k]; if !ok { p = new }; p.f = …`)
+						if !ok {
+							all, n := true, 0
+							for i, e := range phi.Edges {
+								if e != v || i >= len(phi.Block().Preds) {
+									continue
+								}
+								n++
+								if !r.nonNilOnEdge(v, phi.Block().Preds[i], phi.Block()) {
+									all = false
+								}
+							}
+							if all && n > 0 {
+								ok, why = true, "merged with a fresh value: it flows on only along the edge on which it is known to be present / non-nil"
+							}
+						}
 					}
 				}
 			}
@@ -1577,11 +2351,18 @@ func (r *Run) nilChecks(fn *ssa.Function) (nP3, nP5 int) {
 			arg = why
 		}
 		site := r.P.pos(ins.Pos())
+		if ex, isEx := ins.(*ssa.Extract); isEx {
+			site = r.P.pos(ex.Tuple.Pos())
+		}
 		if site == "-" && badUse != nil {
 			site = r.P.pos(badUse.Pos())
 		}
 		if badUse == nil {
 			r.OK("R7."+kind, name, construct, site, "every dereference is "+arg)
+			continue
+		}
+		if why, ok := r.chainWalker(fn, v); ok {
+			r.OK("R7."+kind, name, construct, site, why)
 			continue
 		}
 		if reason, ok := useTable(r, nilTable, name+"/"+construct); ok {
@@ -1739,6 +2520,375 @@ var allTables = []namedTable{
 	{"bounds", &boundsTable}, {"assert", &assertTable}, {"panic", &panicTable}, {"div", &divTable}, {"nil", &nilTable},
 	{"err", &errTable}, {"det", &detTable}, {"select", &selectTable}, {"stepLoop", &stepLoopTable},
 	{"planWrite", &planWriteTable}, {"astWrite", &astWriteTable}, {"variableWrite", &variableWriteTable}, {"fanoutOwnerWrites", &fanoutOwnerWrites}, {"cmp", &cmpTable}, {"globalWrite", &globalWriteTable},
+}
+
+// chainRefLists (R7.P5.chain): a JSON-decoded struct type T of the module that refers to itself
+// through a pointer field (IntrospectionTypeRef.OfType) is walked by code that trusts the
+// chain to be complete; the module's validator for such chains is the method on *T that
+// returns a bool. Every list field whose elements hold a T and that the module reads at all
+// must be ranged over somewhere with the validator applied to the element's T and its answer
+// tested — otherwise the elements of that list reach the walkers unchecked. (This is what the
+// tabled nil entries for the walkers rest on.)
+type chainRead struct {
+	fn  *ssa.Function
+	ins ssa.Instruction
+}
+
+type chainFacts struct {
+	validators map[*types.Named][]*ssa.Function
+	reads      map[*types.Var][]chainRead
+	chainOf    map[*types.Var]*types.Named
+	validated  map[*types.Var]bool
+}
+
+var chainMemo = map[*Prog]*chainFacts{}
+
+func (r *Run) chainRefLists(set map[*ssa.Function]bool) {
+	const rule = "R7.P5.chain"
+	cf := r.chainAnalysis()
+	reads, chainOf, validated, validators := cf.reads, cf.chainOf, cf.validated, cf.validators
+	var fields []*types.Var
+	for f := range reads {
+		fields = append(fields, f)
+	}
+	sort.Slice(fields, func(i, j int) bool { return fields[i].Pos() < fields[j].Pos() })
+	for _, f := range fields {
+		nt := chainOf[f]
+		construct := "elements of " + f.Name() + " hold a " + nt.Obj().Name() + " chain"
+		for _, rd := range reads[f] {
+			r.silent = !set[rd.fn]
+			if validated[f] {
+				r.OK(rule, fnName(rd.fn), construct, r.P.pos(rd.ins.Pos()), "the list is ranged over with the chain validator applied to every element and its answer tested")
+			} else {
+				r.Bad(rule, fnName(rd.fn), construct, r.P.pos(rd.ins.Pos()), "the list field "+f.Name()+" is read, but nowhere in the module is it ranged over with the "+nt.Obj().Name()+" validator ("+fnName(validators[nt][0])+") applied to its elements: a reference in it whose wrapper chain ends early (ofType: null) reaches the code that follows the chain without a nil test; "+r.ctxNote(rd.fn))
+			}
+		}
+	}
+	r.silent = false
+}
+
+// chainWalker: v is the self-referential pointer field of a chain type that has a validator,
+// read in a function that is not itself a validator: whether the chain is complete there is
+// decided at the lists the references come from (R7.P5.chain), not at the walker.
+func (r *Run) chainWalker(fn *ssa.Function, v ssa.Value) (string, bool) {
+	ld, ok := v.(*ssa.UnOp)
+	if !ok || ld.Op != token.MUL {
+		return "", false
+	}
+	fa, ok := ld.X.(*ssa.FieldAddr)
+	if !ok {
+		return "", false
+	}
+	nt, _ := derefType(fa.X.Type()).(*types.Named)
+	f := fieldOf(fa)
+	if nt == nil || f == nil {
+		return "", false
+	}
+	if p, ok := f.Type().(*types.Pointer); !ok || !types.Identical(p.Elem(), nt) {
+		return "", false
+	}
+	cf := r.chainAnalysis()
+	if len(cf.validators[nt]) == 0 {
+		return "", false
+	}
+	for _, vf := range cf.validators[nt] {
+		if vf == fn {
+			return "", false
+		}
+	}
+	for fld, t := range cf.chainOf {
+		if t == nt && !cf.validated[fld] {
+			return "", false
+		}
+	}
+	return "link of a " + nt.Obj().Name() + " chain: every list whose elements hold such a chain is validated with " + fnName(cf.validators[nt][0]) + " before it is converted (R7.P5.chain, checked on this run), and a validated chain carries this link wherever its kind says there is one — the correspondence between what the validator accepts and what the walker follows is by reading", true
+}
+
+func (r *Run) chainAnalysis() *chainFacts {
+	if cf, ok := chainMemo[r.P]; ok {
+		return cf
+	}
+	type read = chainRead
+	// chain types and their validators
+	validators := map[*types.Named][]*ssa.Function{}
+	for _, fn := range r.P.Funcs {
+		if fn.Signature.Recv() == nil || fn.Signature.Params().Len() != 0 || fn.Signature.Results().Len() != 1 || fn.Synthetic != "" {
+			continue
+		}
+		if b, ok := fn.Signature.Results().At(0).Type().Underlying().(*types.Basic); !ok || b.Kind() != types.Bool {
+			continue
+		}
+		nt, _ := derefType(fn.Signature.Recv().Type()).(*types.Named)
+		if nt == nil {
+			continue
+		}
+		st, ok := nt.Underlying().(*types.Struct)
+		if !ok {
+			continue
+		}
+		self := false
+		for i := 0; i < st.NumFields(); i++ {
+			if p, ok := st.Field(i).Type().(*types.Pointer); ok && types.Identical(p.Elem(), nt) && strings.Contains(st.Tag(i), `json:"`) {
+				self = true
+			}
+		}
+		if self {
+			validators[nt] = append(validators[nt], fn)
+		}
+	}
+	if len(validators) == 0 {
+		cf := &chainFacts{validators: validators, reads: map[*types.Var][]chainRead{}, chainOf: map[*types.Var]*types.Named{}, validated: map[*types.Var]bool{}}
+		chainMemo[r.P] = cf
+		return cf
+	}
+	holdsChain := func(elem types.Type) (*types.Named, bool) {
+		st, ok := derefType(elem).Underlying().(*types.Struct)
+		if !ok {
+			return nil, false
+		}
+		for nt := range validators {
+			if types.Identical(derefType(elem), nt) {
+				return nil, false // a list of plain references (read by name), not of holders of a chain
+			}
+		}
+		for i := 0; i < st.NumFields(); i++ {
+			ft := derefType(st.Field(i).Type())
+			for nt := range validators {
+				if types.Identical(ft, nt) {
+					return nt, true
+				}
+			}
+		}
+		return nil, false
+	}
+	reads := map[*types.Var][]read{}
+	chainOf := map[*types.Var]*types.Named{}
+	validated := map[*types.Var]bool{}
+	// the answer of the call decides a branch (directly, negated, compared with nil/false)
+	tested := func(c *ssa.Call) bool {
+		seen := map[ssa.Value]bool{}
+		var reaches func(v ssa.Value, depth int) bool
+		reaches = func(v ssa.Value, depth int) bool {
+			if v.Referrers() == nil || seen[v] || depth > 4 {
+				return false
+			}
+			seen[v] = true
+			for _, ref := range *v.Referrers() {
+				switch x := ref.(type) {
+				case *ssa.If:
+					return true
+				case *ssa.UnOp:
+					if x.Op == token.NOT && reaches(x, depth+1) {
+						return true
+					}
+				case *ssa.BinOp:
+					if (x.Op == token.EQL || x.Op == token.NEQ) && reaches(x, depth+1) {
+						return true
+					}
+				case *ssa.Extract:
+					if reaches(x, depth+1) {
+						return true
+					}
+				}
+			}
+			return false
+		}
+		return reaches(c, 0)
+	}
+	isValidator := func(callee *ssa.Function, nt *types.Named) bool {
+		for _, v := range validators[nt] {
+			if callee == v {
+				return true
+			}
+		}
+		return false
+	}
+	// a function that hands one of its *T parameters to a validator and branches on the answer
+	// is a validator too (`checkTypeRef(ref) error { if !ref.complete() {…} }`)
+	for round := 0; round < 3; round++ {
+		for _, fn := range r.P.Funcs {
+			if fn.Synthetic != "" {
+				continue
+			}
+			for _, prm := range fn.Params {
+				nt, _ := derefType(prm.Type()).(*types.Named)
+				if nt == nil || validators[nt] == nil || isValidator(fn, nt) || prm.Referrers() == nil {
+					continue
+				}
+				if _, isPtr := prm.Type().Underlying().(*types.Pointer); !isPtr {
+					continue
+				}
+				for _, ref := range *prm.Referrers() {
+					c, ok := ref.(*ssa.Call)
+					if !ok || c.Call.IsInvoke() {
+						continue
+					}
+					uses := false
+					for _, a := range c.Call.Args {
+						if a == ssa.Value(prm) {
+							uses = true
+						}
+					}
+					if uses && isValidator(r.P.declared(c.Call.StaticCallee()), nt) && tested(c) {
+						validators[nt] = append(validators[nt], fn)
+						break
+					}
+				}
+			}
+		}
+	}
+	// does the element address `base` (an IndexAddr into the list, or the cell the element was
+	// copied into) have its chain field handed to a validator whose answer is tested?
+	var elemValidated func(base ssa.Value, nt *types.Named) bool
+	elemValidated = func(base ssa.Value, nt *types.Named) bool {
+		if base.Referrers() == nil {
+			return false
+		}
+		for _, ref := range *base.Referrers() {
+			fa, ok := ref.(*ssa.FieldAddr)
+			if !ok || fa.X != base || fa.Referrers() == nil || !types.Identical(derefType(derefType(fa.Type())), nt) {
+				continue
+			}
+			var recvs []ssa.Value
+			if _, isPtr := derefType(fa.Type()).(*types.Pointer); isPtr {
+				for _, r2 := range *fa.Referrers() { // a *T field: the loaded pointer is the receiver
+					if ld, ok := r2.(*ssa.UnOp); ok && ld.Op == token.MUL {
+						recvs = append(recvs, ld)
+					}
+				}
+			} else {
+				recvs = append(recvs, fa)
+			}
+			for _, rv := range recvs {
+				if rv.Referrers() == nil {
+					continue
+				}
+				for _, r2 := range *rv.Referrers() {
+					c, ok := r2.(*ssa.Call)
+					if !ok || c.Call.IsInvoke() {
+						continue
+					}
+					uses := false
+					for _, a := range c.Call.Args {
+						if a == rv {
+							uses = true
+						}
+					}
+					if uses && isValidator(r.P.declared(c.Call.StaticCallee()), nt) && tested(c) {
+						return true
+					}
+				}
+			}
+		}
+		return false
+	}
+	// the list is ranged over with every element validated — here, or in a module function it
+	// is handed to
+	var listValidated func(list ssa.Value, nt *types.Named, depth int) bool
+	listValidated = func(list ssa.Value, nt *types.Named, depth int) bool {
+		if list.Referrers() == nil || depth > 2 {
+			return false
+		}
+		for _, ref := range *list.Referrers() {
+			if c, ok := ref.(*ssa.Call); ok && !c.Call.IsInvoke() {
+				g := r.P.declared(c.Call.StaticCallee())
+				if g != nil && inModule(g) && g.Blocks != nil && len(g.Params) == len(c.Call.Args) && tested(c) {
+					for k, a := range c.Call.Args {
+						if a == list && listValidated(g.Params[k], nt, depth+1) {
+							return true
+						}
+					}
+				}
+				continue
+			}
+			ia, ok := ref.(*ssa.IndexAddr)
+			if !ok || ia.X != list || ia.Referrers() == nil {
+				continue
+			}
+			if elemValidated(ia, nt) {
+				return true
+			}
+			for _, r2 := range *ia.Referrers() {
+				ld, ok := r2.(*ssa.UnOp)
+				if !ok || ld.Op != token.MUL || ld.Referrers() == nil {
+					continue
+				}
+				if _, isPtr := ld.Type().Underlying().(*types.Pointer); isPtr && elemValidated(ld, nt) {
+					return true // a list of pointers: the element itself is the base
+				}
+				for _, r3 := range *ld.Referrers() {
+					if st, ok := r3.(*ssa.Store); ok && st.Val == ssa.Value(ld) && elemValidated(st.Addr, nt) {
+						return true
+					}
+				}
+			}
+		}
+		return false
+	}
+	for _, fn := range r.P.Funcs {
+		for _, ins := range allInstrs(fn) {
+			var f *types.Var
+			var list ssa.Value
+			switch x := ins.(type) {
+			case *ssa.UnOp:
+				if fa, ok := x.X.(*ssa.FieldAddr); ok && x.Op == token.MUL {
+					f, list = fieldOf(fa), x
+				}
+			case *ssa.Field:
+				f, list = fieldOfVal(x), x
+			}
+			if f == nil || f.Pkg() == nil || !strings.HasPrefix(f.Pkg().Path(), modPath) {
+				continue
+			}
+			sl, ok := f.Type().Underlying().(*types.Slice)
+			if !ok {
+				continue
+			}
+			nt, ok := holdsChain(sl.Elem())
+			if !ok {
+				continue
+			}
+			chainOf[f] = nt
+			reads[f] = append(reads[f], read{fn, ins})
+			if listValidated(list, nt, 0) {
+				validated[f] = true
+			}
+		}
+	}
+	cf := &chainFacts{validators: validators, reads: reads, chainOf: chainOf, validated: validated}
+	chainMemo[r.P] = cf
+	return cf
+}
+
+// jsonDecodedList: v is a list read from a variable that was handed to encoding/json, or a
+// parameter for which some direct caller passes such a list.
+func (r *Run) jsonDecodedList(v ssa.Value, depth int) bool {
+	switch x := v.(type) {
+	case *ssa.UnOp:
+		if al, ok := x.X.(*ssa.Alloc); ok && x.Op == token.MUL {
+			return jsonDecodedInto(al)
+		}
+	case *ssa.Parameter:
+		g := x.Parent()
+		if g == nil || depth > 2 {
+			return false
+		}
+		k := -1
+		for i, p := range g.Params {
+			if p == x {
+				k = i
+			}
+		}
+		for _, e := range r.P.CG.In[g] {
+			if e.Kind != "static" || k < 0 || k >= len(e.Site.Common().Args) {
+				continue
+			}
+			if r.jsonDecodedList(e.Site.Common().Args[k], depth+1) {
+				return true
+			}
+		}
+	}
+	return false
 }
 
 // jsonDecodedInto: the address of al is handed to encoding/json (Unmarshal / Decoder.Decode).
@@ -1909,7 +3059,495 @@ func ifaceCompareRisk(x *ssa.BinOp) (string, bool) {
 	if safe(x.X) || safe(x.Y) {
 		return "", false
 	}
+	// one operand is known to hold a comparable dynamic type where the comparison runs: a
+	// type switch / comma-ok assertion of that very value to comparable types dominates it
+	// (== is then false for any other dynamic type of the other side, and never panics)
+	if dynComparableAt(x.X, x.Block()) || dynComparableAt(x.Y, x.Block()) {
+		return "", false
+	}
 	return "neither side is nil, a constant, a conversion from a comparable type or a package-level sentinel", true
+}
+
+// foundIndex: ia indexes the list S with the result p of a search function g(…S…) on the side
+// where p is non-negative, and every value g returns is a negative constant or an index at
+// which g itself indexed its (never reassigned) list parameter — "-1 or a position it just
+// visited". With asserted != nil the visited element must also have passed a comma-ok
+// assertion to that type on the way to the return, and nothing may touch S between the search
+// and the use.
+func (r *Run) foundIndex(ia *ssa.IndexAddr, use ssa.Instruction, asserted types.Type) (string, bool) {
+	c, ok := viaCell(ia.Index).(*ssa.Call)
+	if !ok {
+		return "", false
+	}
+	sc := c.Call.StaticCallee()
+	if sc == nil {
+		return "", false
+	}
+	g := r.P.declared(sc)
+	if g == nil || !inModule(g) || g.Blocks == nil || len(g.Params) != len(c.Call.Args) {
+		return "", false
+	}
+	var list *ssa.Parameter
+	for k, a := range c.Call.Args {
+		if a == ia.X {
+			list = g.Params[k]
+		}
+	}
+	if list == nil {
+		return "", false
+	}
+	// the use is on the non-negative side of a test of the result
+	guarded := false
+	for _, ref := range *c.Referrers() {
+		bo, ok := ref.(*ssa.BinOp)
+		if !ok || bo.Referrers() == nil {
+			continue
+		}
+		var side int // successor on which the result is >= 0
+		switch {
+		case bo.X == ssa.Value(c) && bo.Op == token.GEQ && isIntConst(bo.Y, 0), bo.X == ssa.Value(c) && bo.Op == token.GTR && isIntConst(bo.Y, -1):
+			side = 0
+		case bo.X == ssa.Value(c) && bo.Op == token.LSS && isIntConst(bo.Y, 0):
+			side = 1
+		default:
+			continue
+		}
+		for _, r2 := range *bo.Referrers() {
+			iff, ok := r2.(*ssa.If)
+			if !ok || len(iff.Block().Succs) != 2 || iff.Block().Succs[0] == iff.Block().Succs[1] {
+				continue
+			}
+			sb := iff.Block().Succs[side]
+			if len(sb.Preds) == 1 && (sb == use.Block() || sb.Dominates(use.Block())) {
+				guarded = true
+			}
+		}
+	}
+	if !guarded {
+		return "", false
+	}
+	if asserted != nil {
+		for _, ins := range allInstrs(use.Parent()) {
+			if ins == use || ins == ssa.Instruction(ia) || !instrDominates(c, ins) || !instrDominates(ins, use) {
+				continue
+			}
+			switch x := ins.(type) {
+			case *ssa.Store:
+				if a, ok := x.Addr.(*ssa.IndexAddr); ok && a.X == ia.X {
+					return "", false
+				}
+			case ssa.CallInstruction:
+				for _, a := range x.Common().Args {
+					if a == ia.X {
+						return "", false
+					}
+				}
+			}
+		}
+	}
+	// what g returns
+	visitedBefore := func(idx ssa.Value, b *ssa.BasicBlock) bool {
+		if idx.Referrers() == nil {
+			return false
+		}
+		for _, ref := range *idx.Referrers() {
+			a, ok := ref.(*ssa.IndexAddr)
+			if !ok || a.Index != idx || a.X != ssa.Value(list) {
+				continue
+			}
+			if asserted == nil {
+				if a.Block() == b || a.Block().Dominates(b) {
+					return true
+				}
+				continue
+			}
+			for _, r2 := range *a.Referrers() {
+				ld, ok := r2.(*ssa.UnOp)
+				if !ok || ld.Op != token.MUL || ld.Referrers() == nil {
+					continue
+				}
+				for _, r3 := range *ld.Referrers() {
+					ta, ok := r3.(*ssa.TypeAssert)
+					if !ok || !ta.CommaOk || ta.X != ssa.Value(ld) || !types.Identical(ta.AssertedType, asserted) {
+						continue
+					}
+					for _, r4 := range *ta.Referrers() {
+						if okv, isEx := r4.(*ssa.Extract); isEx && okv.Index == 1 {
+							for _, sb := range truthSides(okv) {
+								if len(sb.Preds) == 1 && (sb == b || sb.Dominates(b)) {
+									return true
+								}
+							}
+						}
+					}
+				}
+			}
+		}
+		return false
+	}
+	seen := map[ssa.Value]bool{}
+	var leafOK func(v ssa.Value, b *ssa.BasicBlock) bool
+	leafOK = func(v ssa.Value, b *ssa.BasicBlock) bool {
+		if k, ok := v.(*ssa.Const); ok {
+			if k.Value == nil {
+				return false
+			}
+			n, exact := constant.Int64Val(constant.ToInt(k.Value))
+			return exact && n < 0
+		}
+		if phi, ok := v.(*ssa.Phi); ok {
+			if seen[phi] {
+				return true
+			}
+			seen[phi] = true
+			for i, e := range phi.Edges {
+				if !leafOK(e, phi.Block().Preds[i]) {
+					return false
+				}
+			}
+			return true
+		}
+		return visitedBefore(v, b)
+	}
+	rets := returnsOf(g)
+	if len(rets) == 0 {
+		return "", false
+	}
+	for _, ret := range rets {
+		vals := retVals(ret)
+		if len(vals) != 1 || !leafOK(vals[0], ret.Block()) {
+			return "", false
+		}
+	}
+	why := "the index is the non-negative result of " + fnName(g) + " over the same list, which returns a negative constant or a position at which it has just indexed that list"
+	if asserted != nil {
+		why += " and found an element of the asserted type (comma-ok); the list is not touched between the search and the use"
+	}
+	return why, true
+}
+
+// searchIndexProver (P1): S[p] with p found by a search over S (foundIndex).
+func (r *Run) searchIndexProver(fn *ssa.Function, e ast.Expr) (string, bool) {
+	ie, ok := e.(*ast.IndexExpr)
+	if !ok {
+		return "", false
+	}
+	for _, ins := range allInstrs(fn) {
+		if ia, ok := ins.(*ssa.IndexAddr); ok && ia.Pos() == ie.Lbrack {
+			if why, ok := r.foundIndex(ia, ia, nil); ok {
+				return why, true
+			}
+		}
+	}
+	return "", false
+}
+
+// searchedElementAssert (P2): S[p].(T) with p found by a search over S that saw a T there.
+func (r *Run) searchedElementAssert(ta *ssa.TypeAssert) (string, bool) {
+	ld, ok := ta.X.(*ssa.UnOp)
+	if !ok || ld.Op != token.MUL {
+		return "", false
+	}
+	ia, ok := ld.X.(*ssa.IndexAddr)
+	if !ok {
+		return "", false
+	}
+	return r.foundIndex(ia, ta, ta.AssertedType)
+}
+
+// positionalReducerProver: `acc[value.F]` in the reduce function of an AsyncMapReduce call
+// whose payload is lo.Range(n), whose accumulator is made with the same n slots, whose every
+// successful worker return hands back a value with F stored from the worker's index, and whose
+// reducer hands its accumulator on unchanged. Computed on the values: neither the name of the
+// carrying field nor the position of the closures matters.
+func (r *Run) positionalReducerProver(fn *ssa.Function, e ast.Expr) (string, bool) {
+	ie, ok := e.(*ast.IndexExpr)
+	if !ok || fn.Parent() == nil || len(fn.Params) != 2 {
+		return "", false
+	}
+	var ia *ssa.IndexAddr
+	for _, ins := range allInstrs(fn) {
+		if x, ok := ins.(*ssa.IndexAddr); ok && x.Pos() == ie.Lbrack {
+			ia = x
+		}
+	}
+	if ia == nil || ia.X != ssa.Value(fn.Params[0]) {
+		return "", false
+	}
+	ld, ok := ia.Index.(*ssa.UnOp)
+	if !ok || ld.Op != token.MUL {
+		return "", false
+	}
+	fa, ok := ld.X.(*ssa.FieldAddr)
+	if !ok || fa.X != ssa.Value(fn.Params[1]) || fieldOf(fa) == nil {
+		return "", false
+	}
+	carrier := fieldOf(fa)
+	call, mapF, redF := r.amrSite(fn.Parent())
+	if call == nil || mapF == nil || redF != fn || len(mapF.Params) != 1 || len(call.Call.Args) != 4 {
+		return "", false
+	}
+	// the reducer hands on the accumulator it was given
+	for _, ret := range returnsOf(fn) {
+		vals := retVals(ret)
+		if len(vals) != 1 || viaCell(unwrap(vals[0])) != ssa.Value(fn.Params[0]) {
+			return "", false
+		}
+	}
+	// payload lo.Range(n), accumulator make(T, n): the same n
+	rc, ok := unwrap(call.Call.Args[0]).(*ssa.Call)
+	if !ok || !strings.HasSuffix(strings.SplitN(calleeName(&rc.Call), "[", 2)[0], "lo.Range") || len(rc.Call.Args) != 1 {
+		return "", false
+	}
+	mk, ok := unwrap(call.Call.Args[1]).(*ssa.MakeSlice)
+	if !ok || !sameCount(rc.Call.Args[0], mk.Len) {
+		return "", false
+	}
+	// every successful worker return carries the worker's index in the field
+	idx := ssa.Value(mapF.Params[0])
+	nRet := 0
+	for _, ret := range returnsOf(mapF) {
+		vals := retVals(ret)
+		if len(vals) != 2 {
+			return "", false
+		}
+		if !isNilConst(unwrap(vals[1])) {
+			continue // a failed worker: AsyncMapReduce does not reduce its value
+		}
+		carried := r.carriesIndex(unwrap(vals[0]), idx, ret, carrier, 0)
+		if !carried {
+			return "", false
+		}
+		nRet++
+	}
+	if nRet == 0 {
+		return "", false
+	}
+	return "positional reducer: the workers run over lo.Range(n), the accumulator is made with the same n slots, every successful worker result carries the worker's index in ." + carrier.Name() + " (" + strconv.Itoa(nRet) + " return(s) checked) and the reducer hands its accumulator on", true
+}
+
+// pureResultOf: the call goes to a module function that does nothing but compute its single
+// result from its parameters and fields (one return, no stores, no calls but len); returns the
+// result value inside the callee and the parameter → argument mapping of this call.
+func (r *Run) pureResultOf(c *ssa.Call) (ssa.Value, map[*ssa.Parameter]ssa.Value) {
+	sc := c.Call.StaticCallee()
+	if sc == nil {
+		return nil, nil
+	}
+	d := r.P.declared(sc)
+	if d == nil || !inModule(d) || d.Blocks == nil || len(d.Params) != len(c.Call.Args) {
+		return nil, nil
+	}
+	rets := returnsOf(d)
+	if len(rets) != 1 || len(rets[0].Results) != 1 {
+		return nil, nil
+	}
+	for _, ins := range allInstrs(d) {
+		switch x := ins.(type) {
+		case *ssa.UnOp, *ssa.BinOp, *ssa.FieldAddr, *ssa.Field, *ssa.Return, *ssa.Convert, *ssa.ChangeType, *ssa.DebugRef:
+		case *ssa.Call:
+			if b, ok := x.Call.Value.(*ssa.Builtin); !ok || b.Name() != "len" {
+				return nil, nil
+			}
+		default:
+			return nil, nil
+		}
+	}
+	m := map[*ssa.Parameter]ssa.Value{}
+	for i, p := range d.Params {
+		m[p] = c.Call.Args[i]
+	}
+	return rets[0].Results[0], m
+}
+
+// carriesIndex: at instruction `at`, the struct v points to has field `carrier` set from idx —
+// by stores in this function that all write idx, one of which dominates `at`, or because v is
+// the result of a module function every return of which hands back such a value built from the
+// parameter idx is passed for (a constructor helper).
+func (r *Run) carriesIndex(v, idx ssa.Value, at ssa.Instruction, carrier *types.Var, depth int) bool {
+	if v.Referrers() == nil || depth > 2 {
+		return false
+	}
+	carried := false
+	for _, ref := range *v.Referrers() {
+		fb, ok := ref.(*ssa.FieldAddr)
+		if !ok || fb.X != v || fieldOf(fb) != carrier || fb.Referrers() == nil {
+			continue
+		}
+		for _, r2 := range *fb.Referrers() {
+			st, ok := r2.(*ssa.Store)
+			if !ok || st.Addr != ssa.Value(fb) {
+				continue
+			}
+			if unwrap(st.Val) != idx {
+				return false
+			}
+			if instrDominates(st, at) {
+				carried = true
+			}
+		}
+	}
+	if carried {
+		return true
+	}
+	c, ok := v.(*ssa.Call)
+	if !ok {
+		return false
+	}
+	sc := c.Call.StaticCallee()
+	if sc == nil {
+		return false
+	}
+	h := r.P.declared(sc)
+	if h == nil || !inModule(h) || h.Blocks == nil || len(h.Params) != len(c.Call.Args) {
+		return false
+	}
+	for k, a := range c.Call.Args {
+		if unwrap(a) != idx {
+			continue
+		}
+		rets := returnsOf(h)
+		good := len(rets) > 0
+		for _, ret := range rets {
+			vals := retVals(ret)
+			if len(vals) != 1 || !r.carriesIndex(unwrap(vals[0]), h.Params[k], ret, carrier, depth+1) {
+				good = false
+			}
+		}
+		if good {
+			return true
+		}
+	}
+	return false
+}
+
+// sameCount: two integer values that are the same number — the same SSA value (possibly read
+// back from a single-assignment cell), or len() of the same list.
+func sameCount(a, b ssa.Value) bool {
+	a, b = viaCell(unwrap(a)), viaCell(unwrap(b))
+	if a == b {
+		return true
+	}
+	lenArg := func(v ssa.Value) ssa.Value {
+		c, ok := v.(*ssa.Call)
+		if !ok {
+			return nil
+		}
+		if bi, ok := c.Call.Value.(*ssa.Builtin); !ok || bi.Name() != "len" {
+			return nil
+		}
+		return viaCell(c.Call.Args[0])
+	}
+	la, lb := lenArg(a), lenArg(b)
+	return la != nil && lb != nil && (la == lb || sameValue(la, lb))
+}
+
+// processEnding: calls that end the process (or the goroutine) outright.
+func processEnding(callee string) (string, bool) {
+	switch callee {
+	case "os.Exit", "syscall.Exit":
+		return callee + " (ends the process)", true
+	case "runtime.Goexit":
+		return "runtime.Goexit (ends the goroutine without a result)", true
+	case "log.Fatal", "log.Fatalf", "log.Fatalln", "(*log.Logger).Fatal", "(*log.Logger).Fatalf", "(*log.Logger).Fatalln":
+		return callee + " (logs and calls os.Exit(1))", true
+	case "log.Panic", "log.Panicf", "log.Panicln", "(*log.Logger).Panic", "(*log.Logger).Panicf", "(*log.Logger).Panicln":
+		return callee + " (logs and panics)", true
+	}
+	return "", false
+}
+
+// ifaceKeyRisk: m is a map whose key type is an interface and the key used at block b is not
+// known to hold a hashable dynamic type (a constant, a conversion from a comparable type, a
+// package-level sentinel, or a value certified by a dominating type switch).
+func ifaceKeyRisk(m, key ssa.Value, b *ssa.BasicBlock) (string, bool) {
+	mt, ok := m.Type().Underlying().(*types.Map)
+	if !ok {
+		return "", false
+	}
+	if _, isParam := mt.Key().(*types.TypeParam); isParam {
+		return "", false
+	}
+	if _, isIface := mt.Key().Underlying().(*types.Interface); !isIface {
+		return "", false
+	}
+	switch y := key.(type) {
+	case *ssa.Const:
+		return "", false
+	case *ssa.MakeInterface:
+		if types.Comparable(y.X.Type()) {
+			return "", false
+		}
+	case *ssa.UnOp:
+		if _, isGlobal := y.X.(*ssa.Global); isGlobal && y.Op == token.MUL {
+			return "", false
+		}
+	}
+	if dynComparableAt(key, b) {
+		return "", false
+	}
+	return "the key is not a constant, a conversion from a comparable type or a value a dominating type switch has narrowed to comparable types", true
+}
+
+// dynComparableAt: every path from the entry of the function to block b takes the success
+// edge of a comma-ok type assertion (a clause of a type switch) of the interface value v to a
+// comparable, non-interface type: inside b the dynamic type of v is comparable.
+func dynComparableAt(v ssa.Value, b *ssa.BasicBlock) bool {
+	if ci, ok := v.(*ssa.ChangeInterface); ok {
+		v = ci.X
+	}
+	fn := b.Parent()
+	if fn == nil || len(fn.Blocks) == 0 {
+		return false
+	}
+	type edge struct{ from, to *ssa.BasicBlock }
+	cert := map[edge]bool{}
+	for _, ins := range allInstrs(fn) {
+		iff, ok := ins.(*ssa.If)
+		if !ok {
+			continue
+		}
+		ex, ok := iff.Cond.(*ssa.Extract)
+		if !ok || ex.Index != 1 {
+			continue
+		}
+		ta, ok := ex.Tuple.(*ssa.TypeAssert)
+		if !ok || !ta.CommaOk {
+			continue
+		}
+		tx := ta.X
+		if ci, ok := tx.(*ssa.ChangeInterface); ok {
+			tx = ci.X
+		}
+		if tx != v || types.IsInterface(ta.AssertedType) || !types.Comparable(ta.AssertedType) {
+			continue
+		}
+		bl := iff.Block()
+		if len(bl.Succs) == 2 && bl.Succs[0] != bl.Succs[1] {
+			cert[edge{bl, bl.Succs[0]}] = true
+		}
+	}
+	if len(cert) == 0 {
+		return false
+	}
+	// is b reachable from the entry without a certifying edge?
+	seen := map[*ssa.BasicBlock]bool{fn.Blocks[0]: true}
+	work := []*ssa.BasicBlock{fn.Blocks[0]}
+	for len(work) > 0 {
+		x := work[len(work)-1]
+		work = work[:len(work)-1]
+		if x == b {
+			return false
+		}
+		for _, s := range x.Succs {
+			if cert[edge{x, s}] || seen[s] {
+				continue
+			}
+			seen[s] = true
+			work = append(work, s)
+		}
+	}
+	return true
 }
 
 // chunkSliceProver: the slice `inputs[i*m : hi]` in the chunk body of MultiOpQueryer.Query (the
@@ -1963,20 +3601,39 @@ func (r *Run) chunkSliceProver(fn *ssa.Function, e ast.Expr) (string, bool) {
 			if !ok || !strings.HasSuffix(strings.SplitN(calleeName(&rc.Call), "[", 2)[0], "lo.Range") || len(rc.Call.Args) != 1 {
 				continue
 			}
-			add, ok := viaCell(unwrap(rc.Call.Args[0])).(*ssa.BinOp)
+			// the count may be computed by a helper that only returns an expression over its
+			// parameters (`q.chunkCount(n)` for `n/q.maxBatchSize + 1`): read the expression
+			// with the call's arguments in place of the parameters
+			count := viaCell(unwrap(rc.Call.Args[0]))
+			pmap := map[*ssa.Parameter]ssa.Value{}
+			if hc, ok := count.(*ssa.Call); ok {
+				if res, m := r.pureResultOf(hc); res != nil {
+					count, pmap = viaCell(unwrap(res)), m
+				}
+			}
+			resolve := func(v ssa.Value) ssa.Value {
+				v = viaCell(unwrap(v))
+				if p, ok := v.(*ssa.Parameter); ok {
+					if a, ok := pmap[p]; ok {
+						return viaCell(unwrap(a))
+					}
+				}
+				return v
+			}
+			add, ok := count.(*ssa.BinOp)
 			if !ok || add.Op != token.ADD {
 				continue
 			}
 			var quo *ssa.BinOp
 			if isIntConst(add.Y, 1) {
-				quo, _ = viaCell(unwrap(add.X)).(*ssa.BinOp)
+				quo, _ = resolve(add.X).(*ssa.BinOp)
 			} else if isIntConst(add.X, 1) {
-				quo, _ = viaCell(unwrap(add.Y)).(*ssa.BinOp)
+				quo, _ = resolve(add.Y).(*ssa.BinOp)
 			}
 			if quo == nil || quo.Op != token.QUO || !dependsOnField(quo.Y, "maxBatchSize") {
 				continue
 			}
-			if lc, ok := viaCell(unwrap(quo.X)).(*ssa.Call); ok {
+			if lc, ok := resolve(quo.X).(*ssa.Call); ok {
 				if b, ok := lc.Call.Value.(*ssa.Builtin); ok && b.Name() == "len" && types.Identical(lc.Call.Args[0].Type(), sl.X.Type()) {
 					// the list whose length was taken is the list that is cut: one parameter of the
 					// fan-out's function, never assigned again (third audit: `inputs = lo.Filter(…)`
